@@ -11,6 +11,9 @@ ATTR = [
  ("fix: Delay copied input samples before", ["C08", "C10"]),
  ("fix: Delay was retired at end of input", ["C05", "C06"]),
  ("fix: Delay::set_delay panicked or mis-sized", ["C10"]),
+ ("fix: Delay panicked in debug builds when the delay exactly", ["C08"]),
+ ("fix: FftFilterFloat panicked in debug builds", ["C08"]),
+ ("fix: derive(Block) generated a new() that did not compile", ["C19"]),
  ("fix: RationalResampler output depended", ["C08", "C10"]),
  ("fix: AuDecode decoded the rest", ["C14"]),
  ("fix: AuDecode panicked", ["C15"]),
